@@ -191,6 +191,12 @@ def adversaries(rnd, quick):
         # failing upstreams
         for how in ('refuse', 'timeout', 'gaierror', 'unreach'):
             out.append(('%s: upstream connect %s' % (role, how), role, base[:3], how))
+    # inputs that have stalled the parser before (conflicting repeated length fields)
+    for role in ('forward', 'web'):
+        for second in (b'0', b'-5'):
+            raw = (b'POST http://a.example/x HTTP/1.1' if role == 'forward' else b'POST /a/r1 HTTP/1.1') + \
+                b'\r\nHost: a.example\r\nContent-Length: 3\r\nContent-Length: ' + second + b'\r\n\r\nabcdefghij'
+            out.append(('%s: input with Content-Length 3 then %s' % (role, second.decode()), role, [('c', raw), ('u', 1, resp)], 'accept'))
     # arbitrary / malformed inputs
     for raw, kind in c06_inputs(rnd, 60 if quick else 600):
         role = rnd.choice(['forward', 'web'])
@@ -400,7 +406,7 @@ def run(chk):
     chk.sample({'part': 'scripted works', 'pending': traces[0]['pending'], 'steps': [(s['act'], s['site']) for s in traces[0]['steps']],
                 'last_observation': traces[0]['steps'][-1]['obs']})
     # ---- (ii) real handler stack -----------------------------------------------------------------------------------
-    from harness.common import pmap
+    from harness.common import pmap, Hung
     alone = {}
     cases, descs = [], {}
     advs = adversaries(rnd, quick)
@@ -408,8 +414,19 @@ def run(chk):
         alone[role] = run_pair(role, [], 'accept', False)
         if not alone[role][2] or not alone[role][0]['cgot']:
             raise MachineryError('canary does not complete alone in role %s' % role)
-    outcomes = pmap(_pair_job, [(role, script, how) for _d, role, script, how in advs], chunksize=4)
-    for (desc, role, script, how), (res, after, alive, err) in zip(advs, outcomes):
+    outcomes = pmap(_pair_job, [(role, script, how) for _d, role, script, how in advs], chunksize=4, watchdog=120)
+    stalled = 0
+    for (desc, role, script, how), out in zip(advs, outcomes):
+        if isinstance(out, Hung):
+            # the executor never came back from one of its works' steps: everything it serves is stalled for good
+            stalled += 1
+            where = [ln.strip() for ln in out.where.splitlines() if 'File' in ln][-2:]
+            chk.violation({'part': 'handlers', 'clause': 'the executor never returned from handling the adversary (all its connections stall)', 'role': role},
+                          '%s: the worker was still busy after 120 s, in %s' % (desc, where),
+                          {'adversary': desc, 'role': role, 'script': [[x.decode('latin1')[:80] if isinstance(x, bytes) else x for x in st] for st in script],
+                           'stack': out.where})
+            continue
+        res, after, alive, err = out
         cid = len(cases) + 1
         cases.append({'id': cid, 'alone': alone[role][0], 'with': res, 'after': after, 'alive': alive, 'err': err})
         descs[cid] = {'adversary': desc, 'role': role, 'script': [list(map(lambda x: x.decode('latin1')[:60] if isinstance(x, bytes) else x, s)) for s in script]}
@@ -431,6 +448,7 @@ def run(chk):
             sig = {'part': 'realnet-tls', 'adversary': d['adversary']}
         chk.violation(sig, '%s: %s' % (d['adversary'], clause), {'case': d, 'loop_error': err})
     chk.cov['adversaries'] = len(cases)
+    chk.cov['adversaries_stalling_the_executor'] = stalled
     chk.sample({'part': 'handler stack', 'case': descs[1]})
     chk.assume('TLS handshakes are exercised on RealNet only: silent client / silent upstream against a real TLS-terminating or intercepting proxy',
                'peers act between loop iterations (reduction argument)',
